@@ -361,6 +361,38 @@ pub fn run(tier: &str, seed: i64) -> Outcome {
         reports.push(SpaceReport { name: format!("(a3) large tables: {} deep searches of quiet endgames (depths {:?}) x {} deep prior games, then ucinewgame, against the fresh engine; the same deep searches on the real binary", big.len(), big.iter().map(|x| x.1).collect::<Vec<_>>(), big.len()), states: res.states, exhaustive: true, note: format!("[{:.1}s]", t4.elapsed().as_secs_f64()) });
         acc.merge(res);
     }
+    // (e) the clock as an environment answer: the real binary under an LD_PRELOAD shim (tools/fastclock.c) through which
+    // time runs 2000 times faster - a search of a second looks like half an hour of wall-clock time. Fixed-depth searches
+    // deep enough for any "has this taken long?" rule to have an opinion must print the same transcript as under the real clock
+    match (crate::realbin::real_bin(), std::env::var("VERIF_FASTCLOCK").ok().filter(|p| std::path::Path::new(p).exists())) {
+        (Some(bin), Some(shim)) => {
+            let t5 = std::time::Instant::now();
+            let deep: Vec<(&str, u8)> = vec![("8/8/4k3/3p4/3P1K2/8/8/5R2 w - - 0 1", if q { 10 } else { 12 }), ("8/1p4kp/p5p1/8/1P6/P3K1P1/7P/8 w - - 0 1", if q { 9 } else { 11 }), ("rnbqkbnr/pppppppp/8/8/8/8/PPPPPPPP/RNBQKBNR w KQkq - 0 1", if q { 6 } else { 7 }), ("r3k2r/p1ppqpb1/bn2pnp1/3PN3/1p2P3/2N2Q1p/PPPBBPPP/R3K2R w KQkq - 0 1", if q { 5 } else { 6 })];
+            let res = par_items(&deep, &|_, (fen, d), acc| {
+                let script = vec![format!("position fen {}", fen), format!("go depth {}", d), "wait".to_string()];
+                acc.states += 1;
+                let replay = json::obj(vec![("kind", json::s("c19-clock")), ("fen", json::s(*fen)), ("depth", json::i(*d))]);
+                let normal = crate::realbin::transcript(&bin, &script, std::time::Duration::from_secs(900));
+                let fast = crate::realbin::transcript_env(&bin, &script, std::time::Duration::from_secs(900), &[("LD_PRELOAD", shim.clone()), ("FASTCLOCK_FACTOR", "2000".to_string())]);
+                match (normal, fast) {
+                    (Ok(a), Ok(b)) => {
+                        acc.evaluations += 2;
+                        acc.transitions += a.len() as u64;
+                        if a != b {
+                            let k = a.iter().zip(b.iter()).position(|(x, y)| x != y).unwrap_or(a.len().min(b.len()));
+                            acc.violation(format!("c19-clock|{}", fen), format!("`position fen {} ; go depth {}` on the real binary: with the clock running 2000x faster the transcript has {} lines and differs at line {} ({:?}) from the run under the real clock ({} lines, {:?})", fen, d, b.len(), k, b.get(k), a.len(), a.get(k)), replay);
+                        } else {
+                            acc.count("(e) deep fixed-depth searches identical under the real and the accelerated clock");
+                        }
+                    }
+                    (Err(e), _) | (_, Err(e)) => acc.violation(format!("c19-clock-died|{}", fen), format!("the real binary failed on `position fen {} ; go depth {}`: {}", fen, d, e), replay),
+                }
+            });
+            reports.push(SpaceReport { name: format!("(e) accelerated clock: {} deep fixed-depth searches on the real binary, real clock vs clock_gettime running 2000x faster (LD_PRELOAD shim)", deep.len()), states: res.states, exhaustive: true, note: format!("[{:.1}s]", t5.elapsed().as_secs_f64()) });
+            acc.merge(res);
+        }
+        _ => acc.notes.push("(e) accelerated-clock stage not run: no C compiler to build tools/fastclock.c, or no real binary".into()),
+    }
     // (d) the real binary (release build of the repository itself, hooks off, real stdout): the same fresh sessions
     let t3 = std::time::Instant::now();
     match crate::realbin::real_bin() {
@@ -447,7 +479,7 @@ pub fn replay(j: &J) -> Result<Acc, String> {
             let root = e3::family_roots().into_iter().find(|(n, _)| *n == fam).ok_or("unknown family")?.1;
             family_histories(fam, root, &[1, 2, 3], &[], 0, &mut acc);
         }
-        Some("c19-real") | Some("c19-large") => return Ok(run("quick", 0).acc),
+        Some("c19-real") | Some("c19-large") | Some("c19-clock") => return Ok(run("quick", 0).acc),
         Some("c19-process") => {
             let mine = fresh_digest("quick");
             let w = run_workers(&self_exe(), vec![vec!["C19".into(), "quick".into(), "0".into(), "--worker".into()]], 1);
